@@ -1,10 +1,11 @@
 """C20 — results depend on declared inputs only, never on stale memory or registers.
 
 Coq (Properties/C20.v): non-interference of the executable models in their explicit junk
-parameters — hash context layer (every algorithm, every oracle, every operation list: the
-observations from `ctx_init junk1` and `ctx_init junk2` coincide), rolling hash (init+reset
-define every field run observes), GCM init (defines every context field later calls read), and
-the statement that model output functions do not take previous output contents.
+parameters — hash context layer (every well-formed algorithm, every oracle, every operation list:
+the observations from `ctx_init junk1` and `ctx_init junk2` coincide for junk arbitrary in every
+field incl. the partial block buffer contents), rolling hash (init+reset define every field run
+observes), GCM (init defines every API-defined context field; a whole session is independent of
+the junk vaes leaves in partial_block_enc_key), and the output-buffer convention.
 
 Tie / the part only execution can observe: paired execution through the call_observed
 trampoline (harness/tramp.S).  Every scenario of checks/tramp.py is built twice from the same
@@ -41,6 +42,15 @@ def ret_view(ret, typ):
 
 def compare(sa, ra, rb):
     """first observable difference between the paired runs of one scenario, or None"""
+    for tag, r in (("A", ra), ("B", rb)):
+        if "crash" in r["flags"]:
+            # a fault/hang on valid declared inputs: reported even when both runs fault alike
+            # (junk that is dereferenced usually faults under every junk value)
+            first = next(iter(sa.meta.values())) if sa.meta else {"sym": "?", "cls": "?"}
+            done = len(r["calls"]) + len(r["ucalls"])
+            m = sa.meta.get(done, first)
+            return {"what": "run %s crashed (%s) in call %d" % (tag, [f for f in r["flags"] if f.startswith("sig=")], done),
+                    "symbol": m["sym"], "class": m["cls"]}
     fa = [f for f in ra["flags"] if not f.startswith("sig=")]
     fb = [f for f in rb["flags"] if not f.startswith("sig=")]
     if fa != fb:
@@ -71,7 +81,7 @@ def paired(rep, tier, only=None, replay=None):
     typed, untyped, notcalled = tramp._inventory(text)
     exe = tramp.driver("plain")
     seed = vlib.seed()
-    rounds = 1 if tier == "quick" else 4
+    rounds = 3 if tier == "quick" else 12
     A, B, info = [], [], {}
     if replay:
         r = replay
@@ -106,7 +116,8 @@ def paired(rep, tier, only=None, replay=None):
         rep.case(key, bool(x.meta))
         diff = compare(x, ra, rb)
         if diff is not None:
-            rep.violation("%s [%s]: paired runs that differ only in hidden inputs disagree on %s" % (diff.get("symbol"), diff.get("class"), diff["what"]),
+            rep.violation(("%s [%s]: %s" if diff["what"].startswith("run ") else
+                           "%s [%s]: paired runs that differ only in hidden inputs disagree on %s") % (diff.get("symbol"), diff.get("class"), diff["what"]),
                           {"symbol": diff.get("symbol"), "class": diff.get("class"), "difference": diff, "symbol_generated_from": sym,
                            "scenario": x.sid0, "dseed": ds, "jseedA": ja, "jseedB": jb,
                            "scriptA": x.line()[:6000], "scriptB": y.line()[:6000]},
